@@ -148,7 +148,7 @@ def delegation(ctx, idx, d, r, base_name, rule="C08.a"):
         ctx.hold(rule, con, d.module.rel, node.lineno, "forwards %s to %s.execute and clamps the result to [-1, 1]" % (sorted(expected), base_name))
 
 
-def sorted_pairs(ctx, idx, d, r):
+def sorted_pairs(ctx, idx, d, r, rule="C08.b"):
     """One sorted(zip(raw, normal)) exists; after it the control points are read only through the sorted sequence."""
     con = "%s.execute::control-points-sorted-as-pairs" % d.key
     fi = d.execute
@@ -199,7 +199,7 @@ def sorted_pairs(ctx, idx, d, r):
                 elif q in ("numpy.argsort",) and v.slice.args and K.src(v.slice.args[0]) == col0:
                     ok, why = True, "rows of the (raw, normal) table permuted by argsort of the raw column"
         if ok:
-            ctx.ob("C08.b", con, d.module.rel, fi.node.lineno, ok, why)
+            ctx.ob(rule, con, d.module.rel, fi.node.lineno, ok, why)
             return
     if ok:
         # the sorted value must be kept, never rebound, and the unsorted lists must not be read again except for len()/set() checks
@@ -230,7 +230,7 @@ def sorted_pairs(ctx, idx, d, r):
                     if not benign:
                         ok = False
                         why = "after sorting, the unsorted list `%s` is still read (`%s`): the curve is driven by unsorted control points" % (n.id, K.src(par)[:60])
-    ctx.ob("C08.b", con, d.module.rel, fi.node.lineno, ok, why)
+    ctx.ob(rule, con, d.module.rel, fi.node.lineno, ok, why)
 
 
 def guards(ctx, idx, d, r, errs):
@@ -291,6 +291,41 @@ def run(ctx, idx):
     for name in CONVERSIONS:
         if name not in res:
             raise AnalysisError("conversion command %s vanished" % name)
+    # the spread of a z-score is numpy's two-pass standard deviation: sqrt(mean(x*x) - mean(x)**2) is the same number on paper and
+    # loses every digit to cancellation when the mean is large against the spread (offset data, float32 grids)
+    ctx.rule("C08.r", "The standard deviation used by the z-score mappings is not computed as sqrt(E[x^2] - E[x]^2): that one-pass form cancels catastrophically for data whose mean is large against its spread (elevations, years, float32 grids), so every z-score threshold and control point is wrong - or NaN - there.")
+    n_r = 0
+    bad_r = None
+    for mod_, f_, n_ in K.scoped_nodes(idx):
+        if not mod_.name.startswith("mpilot.libraries") and mod_.name != "mpilot.utils":
+            continue
+        arg_ = None
+        if isinstance(n_, ast.Call) and K.src(n_.func).split(".")[-1] == "sqrt" and n_.args:
+            arg_ = n_.args[0]
+        elif isinstance(n_, ast.BinOp) and isinstance(n_.op, ast.Pow) and isinstance(n_.right, ast.Constant) and n_.right.value == 0.5:
+            arg_ = n_.left
+        if arg_ is None:
+            continue
+        n_r += 1
+        arg_ = K.expand(f_, arg_) if f_ is not None and isinstance(arg_, ast.Name) else arg_
+        if isinstance(arg_, ast.BinOp) and isinstance(arg_.op, ast.Sub):
+            sq_mean = any(isinstance(c_, ast.Call) and K.src(c_.func).split(".")[-1] in ("mean", "average") and c_.args and isinstance(c_.args[0], ast.BinOp) and isinstance(c_.args[0].op, (ast.Mult, ast.Pow)) for c_ in ast.walk(arg_.left))
+            mean_sq = isinstance(arg_.right, ast.BinOp) and isinstance(arg_.right.op, (ast.Mult, ast.Pow))
+            if sq_mean and mean_sq and bad_r is None:
+                bad_r = (mod_, n_)
+    ctx.ob("C08.r", "mpilot/libraries::two-pass-deviation", bad_r[0].rel if bad_r else "mpilot/libraries/eems/basic.py", bad_r[1].lineno if bad_r else 1, bad_r is None,
+           "no standard deviation is computed from the mean of the squares (%d square roots read)" % n_r if bad_r is None else
+           "`%s` takes the deviation from the mean of the squares minus the squared mean: for 1e8 + [0..9] it gives 2.83 instead of 2.87, for larger offsets (or float32 grids) NaN - every z-score threshold and control point built on it is wrong" % K.src(bad_r[1])[:70])
+    ctx.rule("C08.q", "The mappings are computed in floating point: in the 17 conversion / normalisation commands no (+ - *) between the field and a number happens while neither is known to be floating - numpy keeps the element type of the GRID there, so for int8 / uint8 / int16 fields the shift or the scaling wraps around before the division (thresholds go through float(), statistics like the mean are floating already).")
+    n_q = 0
+    for name in CONVERSIONS:
+        d_, r_ = res[name]
+        n_q += 1
+        io_ = r_.intops
+        ctx.ob("C08.q", "%s.execute::float-arithmetic" % d_.key, d_.module.rel, io_[0][0].lineno if io_ else d_.execute.node.lineno, not io_,
+               "every (+ - *) between the field and a number involves a floating operand" if not io_ else
+               "`%s` combines the field with a number while neither is known to be floating: numpy computes it in the element type of the grid, so an int8 / uint8 / int16 field wraps around (uint8 200 * 2 = 144) and the mapping is wrong for such fields although the result is a float array" % K.src(io_[0][0])[:60])
+    ctx.floor("C08.q", "conversion commands", n_q, 17)
     for name, base in SIBLINGS.items():
         delegation(ctx, idx, res[name][0], res[name][1], base)
     for name in ("NormalizeCurve", "NormalizeCurveZScore"):
